@@ -680,11 +680,39 @@ func (c *cokCase) funcText() string {
 func cokProgram(cases []*cokCase) string {
 	var b strings.Builder
 	b.WriteString("package main\n\n")
-	b.WriteString(cokDecls)
-	b.WriteString("\n")
+	var fns strings.Builder
 	for _, c := range cases {
-		b.WriteString(c.funcText() + "\n")
+		fns.WriteString(c.funcText() + "\n")
 	}
+	// the shared declarations the cases refer to (directly or through another declaration)
+	chunks := strings.Split(strings.TrimSpace(cokDecls), "\n\n")
+	used := make([]bool, len(chunks))
+	text := fns.String()
+	for changed := true; changed; {
+		changed = false
+		for i, ch := range chunks {
+			if used[i] {
+				continue
+			}
+			head := strings.Fields(strings.NewReplacer(",", " ", "(", " ").Replace(ch))
+			for _, name := range head[1:] {
+				if !strings.HasPrefix(name, "Pq_") {
+					break
+				}
+				if strings.Contains(text, name) {
+					used[i], changed = true, true
+					text += ch
+					break
+				}
+			}
+		}
+	}
+	for i, ch := range chunks {
+		if used[i] {
+			b.WriteString(ch + "\n\n")
+		}
+	}
+	b.WriteString(fns.String())
 	b.WriteString("func Pq_run(id int, f func()) {\n\tdefer func() {\n\t\tif r := recover(); r != nil {\n\t\t\tif e, ok := r.(error); ok {\n\t\t\t\tprintln(\"P\", id, e.Error())\n\t\t\t} else {\n\t\t\t\tprintln(\"P\", id, \"not-an-error\")\n\t\t\t}\n\t\t}\n\t}()\n\tf()\n}\n\n")
 	const groupSize = 100
 	ngroups := (len(cases) + groupSize - 1) / groupSize
@@ -792,7 +820,7 @@ func cokInputs(r *proto.Rand, form string, k *cokKind, pattern int) []cokIn {
 
 // cokMatrix: every form × kind × context with new variables as destination and a
 // success-then-failure pattern, then `extra` random points of the whole space.
-func cokGenerate(r *proto.Rand, avoid map[string]bool, extra int, firstID int) []*cokCase {
+func cokGenerate(r *proto.Rand, avoid map[string]bool, destEvery int, extra int, firstID int) []*cokCase {
 	kinds := cokKinds
 	var out []*cokCase
 	id := firstID
@@ -818,10 +846,13 @@ func cokGenerate(r *proto.Rand, avoid map[string]bool, extra int, firstID int) [
 			}
 		}
 	}
-	// every form × destination × kind once, in a random context
+	// every form × destination × kind once (one in `destEvery` of them), in a random context
 	for _, form := range cokForms {
 		for _, dest := range cokDests {
 			for _, k := range kinds {
+				if destEvery > 1 && r.Intn(destEvery) != 0 {
+					continue
+				}
 				for try := 0; try < 6; try++ {
 					c := &cokCase{form: form, kind: k, ctx: cokCtxs[r.Intn(len(cokCtxs))], dest: dest, keyInt: r.Intn(3) == 0, deflt: r.Bool(), swap: r.Bool()}
 					c.inputs = cokInputs(r, form, k, r.Intn(5))
@@ -847,7 +878,7 @@ func cokGenerate(r *proto.Rand, avoid map[string]bool, extra int, firstID int) [
 
 // commaokStream: the matrix plus `extra` random cases; gc, the generator's expectation, the Lean
 // model (spec and VM model) as oracles.
-func commaokStream(c *hx.Ctx, extra, shrinkBudget int) error {
+func commaokStream(c *hx.Ctx, destEvery, extra, shrinkBudget int) error {
 	res := c.Res
 	avoid := map[string]bool{}
 	for _, f := range c.Findings {
@@ -855,7 +886,7 @@ func commaokStream(c *hx.Ctx, extra, shrinkBudget int) error {
 			avoid[feat] = true
 		}
 	}
-	cases := cokGenerate(c.R, avoid, extra, 0)
+	cases := cokGenerate(c.R, avoid, destEvery, extra, 0)
 	src := cokProgram(cases)
 	if structDevDump([]string{src}) {
 		return nil
@@ -1007,6 +1038,11 @@ func (c *cokCase) linesOfModel(toks []string) []string {
 		}
 		out = append(out, strings.Join(ps, " "))
 	}
+	if c.ctx == "seq" && c.dest != "ifinit" {
+		for _, l := range append([]string(nil), out...) {
+			out = append(out, "again "+l) // everything is read again at the end
+		}
+	}
 	return out
 }
 
@@ -1035,22 +1071,22 @@ func cokShrink(c *cokCase, failing func(*cokCase) bool, budget int) *cokCase {
 			}
 		}
 	}
-	for _, ctx := range []string{"loop", "unrolled"} {
-		if cur.ctx != ctx {
+	if cur.ctx != "loop" {
+		cand := *cur
+		cand.ctx = "loop"
+		if !try(&cand) && cur.ctx != "unrolled" {
 			cand := *cur
-			cand.ctx = ctx
-			if try(&cand) {
-				break
-			}
+			cand.ctx = "unrolled"
+			try(&cand)
 		}
 	}
-	for _, dest := range []string{"fresh", "outer"} {
-		if cur.dest != dest {
+	if cur.dest != "fresh" {
+		cand := *cur
+		cand.dest = "fresh"
+		if !try(&cand) && cur.dest != "outer" {
 			cand := *cur
-			cand.dest = dest
-			if try(&cand) {
-				break
-			}
+			cand.dest = "outer"
+			try(&cand)
 		}
 	}
 	return cur
